@@ -630,3 +630,83 @@ Proof.
   destruct (file_init_valid _ _ Ei) as [Hft Hin].
   symmetry. exact (adds_slot0 _ Hft ms fb ga fx gx Hin Ea Hno).
 Qed.
+
+(* ================================================================ the whole-entry statements for DecodeHeaderAndFileID *)
+Theorem DecodeHeaderAndFileID_threshold : forall g bs r,
+  entry_DecodeHeaderAndFileID g (solo bs) (solo_fuel bs) = TDone r -> dr_err r = None ->
+  exists need, (need <= List.length bs)%nat /\
+    (forall k rd fuel, (k < need)%nat -> rd_data rd = firstn k bs -> wf rd fuel ->
+       exists r' e, entry_DecodeHeaderAndFileID g rd fuel = TDone r' /\ dr_err r' = Some e) /\
+    (forall rd fuel, firstn need (rd_data rd) = firstn need bs -> (need <= List.length (rd_data rd))%nat -> wf rd fuel ->
+       exists r', entry_DecodeHeaderAndFileID g rd fuel = TDone r' /\ dr_err r' = None /\ dr_hdr r' = dr_hdr r /\
+                  dr_file r' = dr_file r /\ dr_g r' = dr_g r).
+Proof.
+  unfold entry_DecodeHeaderAndFileID. intros g bs r Hd He.
+  pose proof (decode_abs no_opts MFileIdOnly g (solo bs) (solo_fuel bs) (solo_wf bs)) as HA. rewrite Hd in HA.
+  unfold solo in HA at 2 3. cbn [rd_data rd_term] in HA.
+  destruct (decode_a no_opts MFileIdOnly g bs TEOF) as [a|w|] eqn:Ea; try contradiction.
+  destruct HA as (M1 & M2 & M3 & M4 & _). rewrite M1 in He.
+  destruct (fileid_threshold no_opts g bs TEOF a Ea He) as (need & Hn & Hlow & Hup).
+  exists need. split; [exact Hn|]. split.
+  - intros k rd fuel Hk Hdata Hwf. destruct (Hlow k (rd_term rd) Hk) as (a' & e & Ea' & Ee).
+    rewrite <- Hdata in Ea'. destruct (decode_of_a _ _ _ _ _ _ Hwf Ea') as (r' & Hr' & E1 & _).
+    exists r', e. split; [exact Hr'|congruence].
+  - intros rd fuel Hf Hl Hwf. destruct (Hup (rd_data rd) (rd_term rd) Hf Hl) as (a' & Ea' & A1 & A2 & A3 & A4).
+    destruct (decode_of_a _ _ _ _ _ _ Hwf Ea') as (r' & Hr' & E1 & E2 & E3 & E4 & _).
+    exists r'. split; [exact Hr'|]. repeat split; congruence.
+Qed.
+
+(* for a file of the domain of Decode_denote the threshold is the header, the file_id definition and the file_id data
+   record: every shorter input (cut or read fault) is an error *)
+Theorem DecodeHeaderAndFileID_cut_is_error :
+  forall g rd fuel h l be fds (devflag : bool) (devs : list (N * N * N)) pay dev ssb f2 g1 tl k,
+  let r1 := RDef l be c_MesgNumFileId fds devflag devs in
+  let r2 := RData l pay dev in
+  header_wf h ->
+  (List.length (ser_record r1) + List.length (ser_record r2) <= N.to_nat (h_dsize h))%nat ->
+  rec_wf r1 = true -> rec_wf r2 = true -> denote_from ss_init [r1; r2] = Some ssb ->
+  start_file h g (hd dummy_msg (ss_msgs ssb)) = Some (f2, g1) ->
+  (k < N.to_nat (h_size h) + List.length (ser_record r1) + List.length (ser_record r2))%nat ->
+  rd_data rd = firstn k (hdr_bytes h ++ (ser_record r1 ++ ser_record r2) ++ tl) -> wf rd fuel ->
+  exists res e, entry_DecodeHeaderAndFileID g rd fuel = TDone res /\ dr_err res = Some e.
+Proof.
+  intros g rd fuel h l be fds devflag devs pay dev ssb f2 g1 tl k r1 r2 Hwfh Hlim Hwf1 Hwf2 Hden Hstart Hk Hd Hf.
+  unfold entry_DecodeHeaderAndFileID.
+  destruct (Nat.lt_ge_cases k (N.to_nat (h_size h))) as [Hlt|Hge].
+  - destruct (decode_cut_in_header no_opts MFileIdOnly g rd fuel h _ k Hwfh Hlt Hd Hf) as (res & e & H1 & H2 & _).
+    exists res, e. split; assumption.
+  - pose proof (hdr_bytes_length h Hwfh) as Hlen.
+    rewrite firstn_app, Hlen, firstn_all2 in Hd by lia.
+    rewrite firstn_app in Hd. replace (k - N.to_nat (h_size h) - List.length (ser_record r1 ++ ser_record r2))%nat with 0%nat in Hd
+      by (rewrite app_length; lia).
+    cbn [firstn] in Hd. rewrite app_nil_r in Hd.
+    destruct (Decode_cut_in_file_id no_opts MFileIdOnly g rd fuel h l be fds devflag devs pay dev ssb f2 g1
+                (firstn (k - N.to_nat (h_size h)) (ser_record r1 ++ ser_record r2))
+                (skipn (k - N.to_nat (h_size h)) (ser_record r1 ++ ser_record r2))
+                (or_intror eq_refl) Hwfh Hd) as (res & e & file' & H1 & H2 & _); try assumption.
+    + fold r1 r2. symmetry. apply firstn_skipn.
+    + intros E. apply (f_equal (@List.length N)) in E. rewrite skipn_length, app_length in E. cbn [List.length] in E. lia.
+    + exists res, (EIO e). split; assumption.
+Qed.
+
+(* ================================================================ a second file_id record: the refutation witness *)
+(* a 12-byte header, the file_id definition (one field: type), a file_id data record of type 4 (activity) and a
+   second file_id data record of type 2 (settings) *)
+Definition two_fid_body : list N :=
+  [12; 16; 100; 0; 13; 0; 0; 0; 46; 70; 73; 84; 0x40; 0; 0; 0; 0; 1; 0; 1; 0; 0; 4; 0; 2].
+Definition two_fid_file : list N := two_fid_body ++ put_le16 (checksum two_fid_body).
+
+Definition slot0_of (x : tout dres) : option (list msg) :=
+  match x with
+  | TDone r => match dr_err r, dr_file r with None, Some f => Some (nth 0 (f_slots f) []) | _, _ => None end
+  | _ => None
+  end.
+
+(* both calls succeed; DecodeHeaderAndFileID reports the first file_id message, Decode the last one *)
+Lemma two_file_ids_disagree :
+  exists m1 m2, slot0_of (entry_DecodeHeaderAndFileID g_init (solo two_fid_file) (solo_fuel two_fid_file)) = Some [m1] /\
+                slot0_of (entry_Decode no_opts g_init (solo two_fid_file) (solo_fuel two_fid_file)) = Some [m2] /\
+                m1 <> m2.
+Proof.
+  eexists. eexists. split; [vm_compute; reflexivity|]. split; [vm_compute; reflexivity|]. discriminate.
+Qed.
